@@ -373,7 +373,7 @@ class TransformedPrior(Prior):
 
         def draw(bp):
             if id(bp) not in memo:
-                if isinstance(bp, TransformedPrior):
+                if type(bp).sample is TransformedPrior.sample:
                     memo[id(bp)] = bp.sample(size, memo)
                 else:
                     memo[id(bp)] = bp.sample(size)
